@@ -103,15 +103,25 @@ def b64Char (n : Nat) : Char :=
   if n < 26 then Char.ofNat (65 + n) else if n < 52 then Char.ofNat (97 + (n - 26))
   else if n < 62 then Char.ofNat (48 + (n - 52)) else if n = 62 then '+' else '/'
 
-def b64encode : List UInt8 → Str
+/-- bytes are naturals below 256 (kernel-friendly) -/
+def b64encode : List Nat → Str
   | [] => []
-  | [a] => [b64Char (a.toNat / 4), b64Char ((a.toNat % 4) * 16), '=', '=']
-  | [a, b] => [b64Char (a.toNat / 4), b64Char ((a.toNat % 4) * 16 + b.toNat / 16), b64Char ((b.toNat % 16) * 4), '=']
+  | [a] => [b64Char (a / 4), b64Char ((a % 4) * 16), '=', '=']
+  | [a, b] => [b64Char (a / 4), b64Char ((a % 4) * 16 + b / 16), b64Char ((b % 16) * 4), '=']
   | a :: b :: c :: rest =>
-    b64Char (a.toNat / 4) :: b64Char ((a.toNat % 4) * 16 + b.toNat / 16) ::
-    b64Char ((b.toNat % 16) * 4 + c.toNat / 64) :: b64Char (c.toNat % 64) :: b64encode rest
+    b64Char (a / 4) :: b64Char ((a % 4) * 16 + b / 16) ::
+    b64Char ((b % 16) * 4 + c / 64) :: b64Char (c % 64) :: b64encode rest
 
-def utf8 (s : Str) : List UInt8 := (String.ofList s).toUTF8.toList
+/-- UTF-8 encoding of one code point -/
+def utf8Char (c : Char) : List Nat :=
+  let n := c.toNat
+  if n < 0x80 then [n]
+  else if n < 0x800 then [0xC0 + n / 64, 0x80 + n % 64]
+  else if n < 0x10000 then [0xE0 + n / 4096, 0x80 + (n / 64) % 64, 0x80 + n % 64]
+  else [0xF0 + n / 262144, 0x80 + (n / 4096) % 64, 0x80 + (n / 64) % 64, 0x80 + n % 64]
+
+/-- `s.encode('utf-8')` -/
+def utf8 (s : Str) : List Nat := s.flatMap utf8Char
 
 def isB64Data (c : Char) : Bool :=
   ('A' ≤ c && c ≤ 'Z') || ('a' ≤ c && c ≤ 'z') || ('0' ≤ c && c ≤ '9') || c = '+' || c = '/'
@@ -187,8 +197,7 @@ inductive Out where
   | reconnect (wait : Bool) (server : Option Server)   -- driver.reconnect(...)
   | closed                                  -- real driver: socket of the current connection closed
   | connected (srv : Server) (tls : Bool) (verify : Bool)  -- real driver: new socket connected
-  | wire (msgs : List Out)                  -- real driver: these messages were written to the socket
-deriving Repr
+deriving DecidableEq, Repr
 
 structure Cfg where
   nick : Str
@@ -255,6 +264,7 @@ structure St where
   -- ghost (not observable in the implementation; used by the theorems)
   epoch : Nat := 0          -- number of Irc.reset() calls so far
   endCount : Nat := 0       -- CAP END sent in this epoch
+  saslAcked : Bool := false -- a CAP ACK left `sasl` acknowledged at some point of this epoch
 deriving Repr
 
 /-- result of a handler: the state reached and the exception raised, if any -/
@@ -326,7 +336,7 @@ def clearForReset (cfg : Cfg) (s : St) : St :=
   { resetSasl cfg s with
       nick := cfg.nick, altNicks := cfg.alternates, tried := [], afterConnect := false,
       fsm := Gen.Conn.fsmReset, ls := [], req := [], ack := [], nak := [],
-      fastq := [], slowq := [], epoch := s.epoch + 1, endCount := 0 }
+      fastq := [], slowq := [], epoch := s.epoch + 1, endCount := 0, saslAcked := false }
 
 /-- Irc.reset() -/
 def ircReset (cfg : Cfg) (s : St) : St := queueConnectMessages cfg (clearForReset cfg s)
@@ -438,7 +448,7 @@ def endCap (cfg : Cfg) (s : St) : R :=
   (onCapEnd s).bind fun s => ok (sendMsg .capEnd { s with endCount := s.endCount + 1 })
 
 /-- Irc.sendSaslString -/
-def sendSaslString (bytes : List UInt8) (s : St) : St :=
+def sendSaslString (bytes : List Nat) (s : St) : St :=
   (authChunks Gen.Conn.authenticateChunkSize (b64encode bytes)).foldl (fun s c => sendMsg (.authPayload c) s) s
 
 /-- Irc.tryNextSaslMechanism -/
@@ -498,22 +508,19 @@ def authRespond (cfg : Cfg) (n : Nat) (s : St) : R :=
       ok (sendSaslString (utf8 cfg.saslUser ++ [0] ++ utf8 cfg.saslUser ++ [0] ++ utf8 cfg.saslPass) s)
     else ok s
 
+/-- `self.authenticate_decoder`, created on demand -/
+def curDecoder (s : St) : Decoder := s.dec.getD ⟨[], false⟩
+
 /-- Irc.doAuthenticate.  `cmd` is the command as received (the decoder asserts its exact spelling). -/
 def doAuthenticate (cfg : Cfg) (cmd : Str) (args : List Str) (s : St) : R :=
   (expectState Gen.Conn.expectDoAuthenticate s).bind fun s =>
-  let d0 : Decoder := match s.dec with
-    | some d => d
-    | none => ⟨[], false⟩
-  let s := { s with dec := some d0 }
-  if cmd ≠ sAUTHENTICATE then raise "AssertionError" s else
+  if cmd ≠ sAUTHENTICATE then raise "AssertionError" { s with dec := some (curDecoder s) } else
   match args with
-  | [] => raise "IndexError" s
+  | [] => raise "IndexError" { s with dec := some (curDecoder s) }
   | chunk :: _ =>
-    let d := decoderFeed d0 chunk
-    let s := { s with dec := some d }
-    if !d.ready then ok s else
-    match b64decodedLen d.chunks with
-    | none => raise "Error" s                                   -- binascii.Error, decoder kept
+    if !(decoderFeed (curDecoder s) chunk).ready then ok { s with dec := some (decoderFeed (curDecoder s) chunk) } else
+    match b64decodedLen (decoderFeed (curDecoder s) chunk).chunks with
+    | none => raise "Error" { s with dec := some (decoderFeed (curDecoder s) chunk) }   -- binascii.Error, decoder kept
     | some n => authRespond cfg n { s with dec := none }
 
 def do903 (cfg : Cfg) (s : St) : R :=
@@ -562,8 +569,8 @@ def newCaps (s : St) : List Str :=
 def arrangeCaps (ack : List Str) (caps : List Str) : List Str :=
   let caps := isort caps
   if caps.contains sEcho && !ack.contains sLabeled then
-    let c := caps.erase sEcho
-    if c.contains sLabeled then sEcho :: sLabeled :: c.erase sLabeled else c
+    let c := caps.filter (· != sEcho)                -- caps.remove(...): caps comes from a set
+    if c.contains sLabeled then sEcho :: sLabeled :: c.filter (· != sLabeled) else c
   else caps
 
 def capReqWidth : Nat := Gen.Conn.maxLineSize - Gen.Conn.capReqPrefix.length
@@ -574,16 +581,18 @@ def requestCaps (caps : List Str) (s : St) : St :=
   let s := { s with req := union s.req caps }
   (fill capReqWidth caps).foldl (fun s l => sendMsg (.capReq l) s) s
 
+/-- the end-of-LS branch of Irc.doCapLs after `_addCapabilities` -/
+def capLsFinal (cfg : Cfg) (s : St) : R :=
+  if s.fsm = .SHUTTING_DOWN then ok s else
+  (expectState Gen.Conn.expectDoCapLs s).bind fun s =>
+  if (fill capReqWidth (arrangeCaps s.ack (newCaps s))).isEmpty then endCap cfg (requestCaps (newCaps s) s)
+  else ok (requestCaps (newCaps s) s)
+
 def doCapLs (cfg : Cfg) (args : List Str) (s : St) : R :=
   match args with
   | [_, _, star, caps] =>
     if star ≠ sStar then ok s else ok (addCapabilities cfg caps s)
-  | [_, _, caps] =>
-    let s := addCapabilities cfg caps s
-    if s.fsm = .SHUTTING_DOWN then ok s else
-    (expectState Gen.Conn.expectDoCapLs s).bind fun s =>
-    if (fill capReqWidth (arrangeCaps s.ack (newCaps s))).isEmpty then endCap cfg (requestCaps (newCaps s) s)
-    else ok (requestCaps (newCaps s) s)
+  | [_, _, caps] => capLsFinal cfg (addCapabilities cfg caps s)
   | _ => ok s
 
 def doCapAckNak (cfg : Cfg) (isAck : Bool) (args : List Str) (s : St) : R :=
@@ -591,7 +600,8 @@ def doCapAckNak (cfg : Cfg) (isAck : Bool) (args : List Str) (s : St) : R :=
   | [_, _, caps] =>
     let l := splitWs caps
     if l.isEmpty then raise "AssertionError" s else
-    capUpkeep cfg (if isAck then { s with ack := union s.ack l } else { s with nak := union s.nak l })
+    if isAck then capUpkeep cfg { s with ack := union s.ack l, saslAcked := s.saslAcked || (union s.ack l).contains sSasl }
+    else capUpkeep cfg { s with nak := union s.nak l }
   | _ => ok s
 
 def capName (c : Str) : Str := (splitChar '=' c).headD []
@@ -604,13 +614,15 @@ def doCapDel (args : List Str) (s : St) : R :=
     ok (l.foldl (fun s c => { s with ls := dictDel s.ls (capName c), ack := s.ack.filter (· != capName c) }) s)
   | _ => ok s
 
+/-- Irc.doCapNew after `_addCapabilities` -/
+def capNewFinal (s : St) : St :=
+  if s.fsm = .SHUTTING_DOWN then s else
+  if (newCaps s).isEmpty then s else requestCaps (newCaps s) s
+
 def doCapNew (cfg : Cfg) (args : List Str) (s : St) : R :=
   match args with
   | [_, _, caps] =>
-    if (splitWs caps).isEmpty then raise "AssertionError" s else
-    let s := addCapabilities cfg caps s
-    if s.fsm = .SHUTTING_DOWN then ok s else
-    if (newCaps s).isEmpty then ok s else ok (requestCaps (newCaps s) s)
+    if (splitWs caps).isEmpty then raise "AssertionError" s else ok (capNewFinal (addCapabilities cfg caps s))
   | _ => ok s
 
 /-! ### nick collisions, MOTD, PING, ERROR, NICK -/
@@ -754,15 +766,37 @@ def feedMsg (cfg : Cfg) (m : Msg) (s : St) : R :=
   (nickSetter m s).bind fun s =>
   (runHandler cfg m s).bind fun s => ok (callbacks cfg m s)
 
-/-- everything the stub-driver harness observes in one step: the state after `feedMsg`, with the
-queues drained (fast queue first) into the returned list, followed by the driver events -/
-def step (cfg : Cfg) (s : St) (m : Msg) : St × List Out × Option String :=
-  let r := feedMsg cfg m { s with ev := [] }
-  let s' := r.st
-  ({ s' with fastq := [], slowq := [], ev := [] }, s'.fastq ++ s'.slowq ++ s'.ev, r.exc)
+/-- one observed step: state with the queues drained, what was on the fast queue, on the normal
+queue, the driver calls / socket events, and the exception that ended the processing (if any) -/
+structure StepResult where
+  st : St
+  fast : List Out
+  slow : List Out
+  events : List Out
+  exc : Option String := none
+
+def drain (s : St) : St := { s with fastq := [], slowq := [], ev := [] }
+
+def observeStep (r : R) : StepResult := ⟨drain r.st, r.st.fastq, r.st.slowq, r.st.ev, r.exc⟩
+
+/-- `irc.feedMsg(m)` followed by taking every queued message (stub driver) -/
+def step (cfg : Cfg) (s : St) (m : Msg) : StepResult := observeStep (feedMsg cfg m s)
+
+/-- operations of a stub-driver history: a server message, or `irc.reset()` called by the driver -/
+inductive Op where
+  | msg (m : Msg)
+  | reset
+deriving DecidableEq, Repr
+
+def applyOp (cfg : Cfg) (s : St) : Op → StepResult
+  | .msg m => step cfg s m
+  | .reset => observeStep (ok (ircReset cfg s))
 
 /-- `Irc(network)` with a fresh `IrcState`: the same start values as after a reset, epoch 0 -/
 def initSt (cfg : Cfg) (base : St) : St :=
   queueConnectMessages cfg { clearForReset cfg base with ev := [], epoch := 0 }
+
+/-- the first observation: `Irc(network)` and everything it queued -/
+def start (cfg : Cfg) (base : St) : StepResult := observeStep (ok (initSt cfg base))
 
 end C08
